@@ -42,7 +42,10 @@ FINISH = dict(
     ],
     rule="(1) exhaustive presence patterns: for renew_delay, random_early_renew, file_name_format all 2^3 "
          "certificate/endpoint/global patterns, for the directory all 2^2, each also without any [global] "
-         "table, distinct values per level, plus the product of the four patterns; (2) trees on disk: "
+         "table, distinct values per level, plus the product of the four patterns; the two duration settings also with "
+         "the value class ZERO (0s, 0d, 0w0d, ...: a value that is given): each level that gives the setting in turn zero "
+         "and the others non-zero, all zero, with and without neighbours, in every second product pattern and in one of "
+         "five duration values of the random trees; (2) trees on disk: "
          "[global] split over main and included files for each of the 15 options in 13 shapes (incl. globs through directories and file-name orderings); files "
          "included twice through different spellings (./, dir/.., absolute, symbolic link, glob + literal); "
          "self/2/3-cycles; random trees (depth <= 3, relative/absolute paths, globs inc/*.toml and "
@@ -129,6 +132,9 @@ def render_secs(rng, n):
     return rng.choice(forms)
 
 
+ZERO_SPELLINGS = ["0s", "0d", "0w0d", "0m", "0h", "0w", "0d0s", "0h0m0s"]
+
+
 class Values:
     """Distinct values: no two calls return the same thing, none equals a built-in default."""
 
@@ -150,6 +156,14 @@ class Values:
             if n not in self.secs:
                 self.secs.add(n)
                 return render_secs(self.rng, n)
+
+    def zero(self):
+        """A duration of zero seconds, GIVEN (not the same thing as a setting that is absent)."""
+        return self.rng.choice(ZERO_SPELLINGS)
+
+    def delay0(self):
+        """A duration for renew_delay / random_early_renew: now and then zero."""
+        return self.zero() if self.rng.random() < 0.2 else self.delay()
 
     def fmt(self):
         return "{{ name }}_{{ key_type }}.f%d.{{ file_type }}.{{ ext }}" % self.tick()
@@ -397,8 +411,9 @@ def reach_order(tree):
 SETTINGS = ["renew_delay", "random_early_renew", "file_name_format", "directory"]
 
 
-def pattern_spec(rng, bits, no_global=False, label=""):
-    """bits: {setting: (cert?, endpoint?, global?)}; one file."""
+def pattern_spec(rng, bits, no_global=False, label="", zero=None):
+    """bits: {setting: (cert?, endpoint?, global?)}; one file.  zero: {duration setting: levels out of "ceg" whose
+    value is a zero duration} (the other levels that give the setting give distinct non-zero values)."""
     v = Values(rng)
     cert = mk_cert("p1", hooks=["h1"])
     ep = mk_endpoint("e1")
@@ -408,12 +423,13 @@ def pattern_spec(rng, bits, no_global=False, label=""):
     for s in SETTINGS:
         c, e, g = bits.get(s, (0, 0, 0))
         mk = v.delay if s in ("renew_delay", "random_early_renew") else v.fmt if s == "file_name_format" else v.directory
+        z = (zero or {}).get(s, "")
         if c:
-            cert[s] = mk()
+            cert[s] = v.zero() if "c" in z else mk()
         if e and s != "directory":
-            ep[s] = mk()
+            ep[s] = v.zero() if "e" in z else mk()
         if g:
-            glob["certificates_directory" if s == "directory" else s] = mk()
+            glob["certificates_directory" if s == "directory" else s] = v.zero() if "g" in z else mk()
     cfg = {"endpoint": [ep], "hook": [mk_hook("h1", "p")], "account": [mk_account("a1")], "certificate": [cert]}
     if not no_global:
         cfg["global"] = glob
@@ -431,6 +447,7 @@ def pattern_specs(ctx):
             if not g:
                 out.append(pattern_spec(ctx.rng, {s: (c, e, 0)}, no_global=True,
                                         label="pattern:%s:c%de%d:no-global-table" % (s, c, e)))
+    out += zero_pattern_specs(ctx.rng)
     prod = []
     for a in range(8):
         for b in range(8):
@@ -444,7 +461,45 @@ def pattern_specs(ctx):
     if ctx.quick():
         ctx.rng.shuffle(prod)
         prod = prod[:768]
-    out += [pattern_spec(ctx.rng, bits, label=lab) for bits, lab in prod]
+    for bits, lab in prod:
+        # every second product pattern: one of the levels that give a duration setting gives zero
+        zero = {}
+        if ctx.rng.random() < 0.5:
+            for s in DURATION_SETTINGS:
+                given = [l for l, b in zip("ceg", bits[s]) if b]
+                if given and ctx.rng.random() < 0.7:
+                    zero[s] = ctx.rng.choice(given)
+        spec = pattern_spec(ctx.rng, bits, label=lab + "".join(":zero-%s-at-%s" % (s, zero[s]) for s in sorted(zero)), zero=zero)
+        if zero:
+            spec["dim"] = "product:zero-duration"
+        out.append(spec)
+    return out
+
+
+DURATION_SETTINGS = ("renew_delay", "random_early_renew")
+LEVEL_NAMES = {"c": "certificate", "e": "endpoint", "g": "global"}
+
+
+def zero_pattern_specs(rng, neighbours=False):
+    """The 2^3 presence patterns of the two duration settings with the value class ZERO: each level that gives the
+    setting in turn gives a zero duration (several spellings), the others distinct non-zero values; and all of them
+    zero.  A zero duration is a value that is GIVEN: it wins over the less specific levels and the default."""
+    out = []
+    for s in DURATION_SETTINGS:
+        for n in range(1, 8):
+            bits = ((n >> 2) & 1, (n >> 1) & 1, n & 1)
+            given = "".join(l for l, b in zip("ceg", bits) if b)
+            for z in list(given) + ([given] if len(given) > 1 else []):
+                for no_global in ([False, True] if not bits[2] else [False]):
+                    spec = pattern_spec(rng, {s: bits}, no_global=no_global, zero={s: z},
+                                        label="pattern:%s:c%de%dg%d:zero-at-%s%s" % (
+                                            s, bits[0], bits[1], bits[2], z, ":no-global-table" if no_global else ""))
+                    spec["dim"] = "pattern:zero-%s-at-%s" % (s, "all" if len(z) > 1 else LEVEL_NAMES[z])
+                    if neighbours:
+                        dim = spec["dim"]
+                        spec = with_neighbours(rng, spec, e2_sets=rng.random() < 0.5)
+                        spec["dim"] = dim + ":neighbours"
+                    out.append(spec)
     return out
 
 
@@ -480,6 +535,7 @@ def pattern_more_specs(ctx):
     for a in range(8):
         bits = {s: ((a >> 2) & 1, (a >> 1) & 1 if s != "directory" else 0, a & 1) for s in SETTINGS}
         out.append(with_neighbours(rng, pattern_spec(rng, bits, label="product:all-%d" % a), e2_sets=bool(a & 1)))
+    out += zero_pattern_specs(rng, neighbours=True)
     # "" is a value that is GIVEN: it wins over the less specific levels (and over the built-in default)
     for s in ("file_name_format", "directory"):
         for level, pats in (("certificate", [(1, 0, 0), (1, 0, 1), (1, 1, 0), (1, 1, 1)]),
@@ -1177,7 +1233,7 @@ def random_tree(rng, idx, scratch):
     eps = []
     for i in range(rng.randint(1, 3)):
         e = mk_endpoint("e%d" % i, rate_limits=rng.sample([r_["name"] for r_ in rls], rng.randint(0, len(rls))))
-        for s, mk in (("renew_delay", v.delay), ("random_early_renew", v.delay), ("file_name_format", v.fmt)):
+        for s, mk in (("renew_delay", v.delay0), ("random_early_renew", v.delay0), ("file_name_format", v.fmt)):
             if rng.random() < 0.4:
                 e[s] = mk()
         eps.append(e)
@@ -1201,7 +1257,7 @@ def random_tree(rng, idx, scratch):
         c = mk_cert("crt%d" % i if named else None, endpoint=rng.choice(eps)["name"], account=rng.choice(accounts)["name"],
                     hooks=[rng.choice(names) for _ in range(rng.randint(0, 3))], ident="n%d.example.org" % i,
                     key_type=rng.choice(["ecdsa_p256", "ecdsa_p384", "rsa2048", None]))
-        for s, mk in (("renew_delay", v.delay), ("random_early_renew", v.delay), ("file_name_format", v.fmt),
+        for s, mk in (("renew_delay", v.delay0), ("random_early_renew", v.delay0), ("file_name_format", v.fmt),
                       ("directory", v.directory)):
             if rng.random() < 0.35:
                 c[s] = mk()
@@ -1295,7 +1351,7 @@ def random_tree(rng, idx, scratch):
             if o in ("accounts_directory", "certificates_directory"):
                 continue
             if rng.random() < 0.3:
-                x = v.option(o)
+                x = v.delay0() if o in DURATION_SETTINGS else v.option(o)
                 g[o] = x
         files[f]["global"] = g
     if holders and rng.random() < 0.92:
